@@ -55,15 +55,21 @@ type checkpoint struct {
 }
 
 func (s *checkpoint) Save() {
-	offsets, dirtyOffsets, anyDirtyOffset := s.stream.GetOffsets()
-
-	if !anyDirtyOffset {
+	if _, _, anyDirtyOffset := s.stream.GetOffsets(); !anyDirtyOffset {
 		logger.Log.Trace("no need to save checkpoint")
 		return
 	}
 
 	s.saveLock.Lock()
 	defer s.saveLock.Unlock()
+
+	// read the state under the lock: a save that had to wait for another one must not work on the
+	// dirty set it saw before waiting (the other save may have replaced it in the meantime)
+	offsets, dirtyOffsets, anyDirtyOffset := s.stream.GetOffsets()
+	if !anyDirtyOffset {
+		logger.Log.Trace("no need to save checkpoint")
+		return
+	}
 
 	// The marks of what is about to be saved are taken off the live set before the offsets are read:
 	// progress acknowledged from now on marks its vBucket again and is persisted by the next save,
